@@ -121,7 +121,7 @@ int libwifi_parse_radiotap_info(struct libwifi_radiotap_info *info, const unsign
             case IEEE80211_RADIOTAP_DBM_TX_POWER:
                 info->tx_power = *it.this_arg;
                 break;
-            case IEEE80211_RADIOTAP_TIMESTAMP:
+            case IEEE80211_RADIOTAP_TIMESTAMP: {
                 uint64_t timestamp = 0;
                 memcpy(&timestamp, it.this_arg, sizeof(timestamp));
                 info->timestamp.timestamp = le64toh(timestamp);
@@ -129,6 +129,7 @@ int libwifi_parse_radiotap_info(struct libwifi_radiotap_info *info, const unsign
                 info->timestamp.unit = *(uint8_t *) (it.this_arg + 10);
                 info->timestamp.flags = *(uint8_t *) (it.this_arg + 11);
                 break;
+            }
             case IEEE80211_RADIOTAP_RTS_RETRIES:
                 info->rts_retries = *it.this_arg;
                 break;
